@@ -48,6 +48,17 @@ Theorem C07_handout_is_input : forall size ops d e,
 Proof. exact handout_is_input. Qed.
 Print Assumptions C07_handout_is_input.
 
+(* A destination that is not fresh makes no difference: a CopyTo into the object
+   that received an earlier CopyTo, and a buffered Assign into a field that still
+   holds an earlier value, hand out NEW regions exactly as they do for a fresh
+   destination - so the theorems above cover the earlier values, still held
+   elsewhere, of every history that uses destinations again. *)
+Theorem C07_used_destination_as_fresh : forall tight st fs k d e,
+  step tight st (OCopyInto fs e) = step tight st (OCopyTo fs e) /\
+  step tight st (OAssignBytesInto k d e) = step tight st (OAssignBytes d e).
+Proof. intros; split; reflexivity. Qed.
+Print Assumptions C07_used_destination_as_fresh.
+
 (* Non-vacuity: a concrete history with growth, client appends and overwrites. *)
 Local Open Scope char_scope.
 Definition demo_ops : list op :=
@@ -57,6 +68,21 @@ Definition demo_ops : list op :=
 Example C07_demo :
   map (fun x => (hd_want x, read (st_heap (run true 3 demo_ops)) (hd_sl x))) (st_log (run true 3 demo_ops))
   = [(["Z"], ["Z"]); (["c"; "d"], ["c"; "d"]); (["9"; "2"], ["9"; "2"]); (["i"; "d"], ["i"; "d"]); (["n"], ["n"])].
+Proof. vm_compute. reflexivity. Qed.
+
+(* Non-vacuity with destinations used again: the value handed out by the first
+   CopyTo (index 1, "fg") is re-filled by its holder, the destination receives a
+   shorter and then a longer value, a buffered Assign goes into the field of
+   value 3; every holder still reads its own content and nothing overlaps. *)
+Definition reuse_ops : list op :=
+  [OCopyTo [(true, ["e"]); (false, ["f"; "g"])] 0; CSetUnbuf 1 ["7"] 0;
+   OCopyInto [(true, ["h"]); (false, ["i"])] 1; OCopyInto [(true, ["j"]); (false, ["k"; "l"; "m"])] 0;
+   OAssignBytesInto 3 ["4"; "2"] 0; CWrite 3 0 "!"].
+Example C07_demo_reuse :
+  (map (fun x => (hd_want x, read (st_heap (run true 2 reuse_ops)) (hd_sl x))) (st_log (run true 2 reuse_ops)),
+   any_overlap (live (st_log (run true 2 reuse_ops))))
+  = ([(["e"], ["e"]); (["7"], ["7"]); (["h"], ["h"]); (["!"], ["!"]); (["j"], ["j"]);
+      (["k"; "l"; "m"], ["k"; "l"; "m"]); (["4"; "2"], ["4"; "2"])], false).
 Proof. vm_compute. reflexivity. Qed.
 
 (* The pinned commit (buf[off:], capacity to the end of the buffer) violates
